@@ -550,17 +550,22 @@ def impl_rank_table(cls):
     return dict(get_registered_sources()[name]._field_func_kwargs_ndim)
 
 
+_BASE_CACHE = {}
+
+
 def translated_base_table():
-    """the literal base rank table of getBH_dict_level2 as the translator read it on this run (Gen/GenTables.v)"""
-    import os
+    """the literal base rank table of getBH_dict_level2, read from the source under test by the translator"""
     import re
-    try:
-        txt = open(os.path.join(os.path.dirname(os.path.dirname(os.path.abspath(__file__))), "coq", "Gen",
-                                "GenTables.v")).read()
-        m = re.search(r"Definition dict_base_ndim .*?:= \[(.*?)\]\.", txt, flags=re.S)
-        return {k: int(v) for k, v in re.findall(r'\("(\w+)", \(?(-?\d+)\)?\)', m.group(1))}
-    except Exception:   # pylint: disable=broad-except
-        return {}
+    if "t" not in _BASE_CACHE:
+        try:
+            from harness.common import REPO
+            from translate import GENERATORS
+            txt = GENERATORS["GenTables"](REPO)
+            m = re.search(r"Definition dict_base_ndim .*?:= \[(.*?)\]\.", txt, flags=re.S)
+            _BASE_CACHE["t"] = {k: int(v) for k, v in re.findall(r'\("(\w+)", \(?(-?\d+)\)?\)', m.group(1))}
+        except Exception:   # pylint: disable=broad-except
+            _BASE_CACHE["t"] = {}
+    return _BASE_CACHE["t"]
 
 
 def func_trigger(cls, modes):
@@ -728,40 +733,57 @@ def check_core(case):
     return None
 
 
+CORE_FUNCTIONS = ["magnet_cuboid_Bfield", "magnet_cylinder_axial_Bfield", "magnet_cylinder_diametral_Hfield",
+                  "magnet_cylinder_segment_Hfield", "magnet_sphere_Bfield", "current_circle_Hfield",
+                  "current_polyline_Hfield", "dipole_Hfield", "triangle_Bfield"]
 CORE_CLASSES = ["Cuboid", "Sphere", "Dipole", "PolylineSeg", "Triangle", "Circle", "CylinderAxial",
                 "CylinderDiametral", "CylinderSegment"]
 
 
 # ------------------------------------------------------------------ Collection role inference
 def check_roles(case):
-    """coll.getX(*inputs) picks sources/observers as documented; compared with explicit top-level calls"""
+    """coll.getX(*inputs) picks sources/observers as documented (docstring of Collection.getB: inputs can only be
+    observers if the collection contains only sources, only sources if it contains only sensors, none if it has both);
+    the picked roles are compared by identity, the numbers with explicit top-level calls"""
     f = case["field"]
-    srcs, sens = build_sources(case), build_sensors(case)
     gx = getX(f)
     from magpylib._src.exceptions import MagpylibBadUserInput
+    srcs, sens = build_sources(case), build_sensors(case)
     ref = quiet(gx, srcs, sens, squeeze=False)
     sc = scale_of(ref) or 1.0
     L = len(srcs)
     tot = np.sum(ref, axis=0, keepdims=True)
-    s2, q2 = build_sources(case), build_sensors(case)
-    csrc, csens = magpy.Collection(*s2), magpy.Collection(*q2)
     # only sources: inputs are observers (one input is passed bare, several as a tuple)
-    roles = csrc._validate_getBH_inputs(*sens)
+    s2, q2 = build_sources(case), build_sensors(case)
+    csrc = magpy.Collection(*s2)
+    roles = csrc._validate_getBH_inputs(*q2)
     if roles[0] is not csrc:
         return fail("role-inference", "sources-only", "a collection of sources did not select itself as source")
-    got = quiet(meth(csrc, f), *sens, squeeze=False)
-    ok, w = same(got, tot[:, :got.shape[1]], False, sc * L)
-    if not ok and got.shape[1] == tot.shape[1]:
+    obs = roles[1] if isinstance(roles[1], (tuple, list)) else [roles[1]]
+    if len(obs) != len(q2) or any(a is not b for a, b in zip(obs, q2)):
+        return fail("role-inference", "sources-only", "the inputs of a collection of sources are not the observers")
+    ok, w = same(quiet(meth(csrc, f), *q2, squeeze=False), tot, False, sc * L)
+    if not ok:
         return fail("role-inference", "sources-only", w)
     # only sensors: inputs are the sources
-    roles = csens._validate_getBH_inputs(*srcs)
+    s3, q3 = build_sources(case), build_sensors(case)
+    csens = magpy.Collection(*q3)
+    roles = csens._validate_getBH_inputs(*s3)
     if roles[1] is not csens:
         return fail("role-inference", "sensors-only", "a collection of sensors did not select itself as observer")
-    # mixed: inputs rejected
-    s3, q3 = build_sources(case), build_sensors(case)
-    cmix = magpy.Collection(*s3, *q3)
+    if len(roles[0]) != len(s3) or any(a is not b for a, b in zip(roles[0], s3)):
+        return fail("role-inference", "sensors-only", "the inputs of a collection of sensors are not the sources")
+    ok, w = same(quiet(meth(csens, f), *s3, squeeze=False), ref, False, sc)
+    if not ok:
+        return fail("role-inference", "sensors-only", w)
+    # mixed: takes both roles, inputs rejected
+    s4, q4 = build_sources(case), build_sensors(case)
+    cmix = magpy.Collection(*s4, *q4)
+    roles = cmix._validate_getBH_inputs()
+    if roles[0] is not cmix or roles[1] is not cmix:
+        return fail("role-inference", "mixed", "a mixed collection did not select itself for both roles")
     try:
-        quiet(meth(cmix, f), sens[0])
+        quiet(meth(cmix, f), magpy.Sensor())
         return fail("role-inference", "mixed-accepts-inputs", "a mixed collection accepted getX inputs")
     except MagpylibBadUserInput:
         pass
